@@ -9,9 +9,14 @@ and writes /verif/seeded/Cxx/{patch.diff, demo*, meta.json}."""
 import json, os, re, shutil, subprocess, sys, tempfile
 from pathlib import Path
 V = Path(__file__).resolve().parents[1]
-SRC = Path("/tmp/seed/out")
 args = sys.argv[1:]
 suite = "--suite" in args
+SRC = Path("/tmp/seed/out")
+TAG = ""
+if "--src" in args:
+    i = args.index("--src"); SRC = Path(args[i + 1]); del args[i:i + 2]
+if "--tag" in args:
+    i = args.index("--tag"); TAG = args[i + 1] + "_"; del args[i:i + 2]
 ids = [a for a in args if not a.startswith("--")]
 
 def sh(cmd, cwd=None, timeout=3600, env=None):
@@ -55,15 +60,33 @@ for pid in ids:
         res["detected"] = rcc == 1
         res["clauses"] = clauses[:8]
         res["check_summary"] = [l for l in oc.splitlines() if l.startswith(pid + " ")][-1:] or oc.strip().splitlines()[-3:]
+        # the behaviour-preserving change of the same area (round 2): must NOT be reported
+        benign = src / "benign.diff"
+        if benign.exists():
+            sh("git checkout -q -- . && git clean -fdq", cwd=wt)
+            rb, ob = sh(f"git apply {benign}", cwd=wt)
+            res["benign_applies"] = rb == 0
+            if rb == 0:
+                rcd, od = sh(runner, cwd=wt, env=env, timeout=1800)
+                res["benign_demo_rc"] = rcd
+                sh("find . -name __pycache__ -prune -exec rm -rf {} +", cwd=wt)
+                rcb, ocb = sh(f"./check {pid} --tier quick", cwd=V, env=env2, timeout=3600)
+                res["benign_check_rc"] = rcb
+                res["benign_flagged"] = rcb != 0
+                res["benign_clauses"] = sorted(set(re.findall(r"clause=(\[[^\]]*\])", ocb)))[:6]
+                res["benign_summary"] = [l for l in ocb.splitlines() if l.startswith(pid + " ")][-1:] or ocb.strip().splitlines()[-3:]
     finally:
         sh(f"git -C /repo worktree remove --force {wt}")
         shutil.rmtree(wt, ignore_errors=True)
     dst = V / "seeded" / pid
     dst.mkdir(parents=True, exist_ok=True)
-    shutil.copy(patch, dst / "patch.diff")
-    shutil.copy(demo, dst / demo.name)
+    shutil.copy(patch, dst / (TAG + "patch.diff"))
+    shutil.copy(demo, dst / (TAG + demo.name))
+    if (src / "benign.diff").exists():
+        shutil.copy(src / "benign.diff", dst / (TAG + "benign.diff"))
     meta = json.loads((src / "meta.json").read_text()) if (src / "meta.json").exists() else {}
     meta["confirmation"] = res
     meta["detected"] = "yes" if res.get("detected") else ("exit2" if res.get("check_rc") == 2 else "no")
-    (dst / "meta.json").write_text(json.dumps(meta, indent=1))
-    print(pid, "demo_ok=%s" % res.get("demo_ok"), "suite_ok=%s" % res.get("suite_ok", "-"), "check_rc=%s" % res.get("check_rc"), res.get("clauses", [])[:2])
+    (dst / (TAG + "meta.json")).write_text(json.dumps(meta, indent=1))
+    print(pid, "demo_ok=%s" % res.get("demo_ok"), "suite_ok=%s" % res.get("suite_ok", "-"), "check_rc=%s" % res.get("check_rc"), res.get("clauses", [])[:2],
+          "benign_rc=%s" % res.get("benign_check_rc", "-"), res.get("benign_clauses", [])[:1])
